@@ -1,5 +1,418 @@
 import ChemProofs.Model.Formula
 import ChemProofs.Spec.Grammar
+import ChemProofs.Lemmas.Ents
+/-
+C07 — the displayed formula text is canonical (model of `to_formula`, `Model/Formula.lean`).
+
+Proved here (core Lean only, no axioms beyond the standard ones):
+
+* `keyLt_irrefl`, `keyLt_trans`, `keyLt_total`, `keyLt_asymm`:
+  `keyLt` (symbol lexicographic, then isotope) is a strict total order on keys.
+* `sortEnts_perm`: `sortEnts l` is a permutation of `l`.
+* `sortEnts_sorted`: for duplicate-free keys, `sortEnts l` is strictly sorted by `keyLt`.
+* `sorted_unique_of_mem` / `sorted_unique_of_perm`: a strictly sorted list is determined by its
+  set of members (hence by its permutation class).
+* `sortEnts_canonical`: duplicate-free permutations of each other sort to the same list.
+* `mem_iff_abs`, `perm_of_same_map`: a duplicate-free entry list is determined, up to permutation,
+  by its finite-map view `Ents.abs`.
+* `sortEnts_of_same_map`: duplicate-free lists with the same finite-map view sort to the same list.
+* `strIndex_of_same_map`: `Comp.strIndex` depends only on the finite-map view.
+* `toFormula_canonical`: the displayed text depends only on the finite-map view of the
+  composition (not on `form`, the cache, or the insertion order).
+* non-vacuity examples by `decide`.
+-/
 namespace Chem
-theorem placeholder_C07 : True := trivial
+
+/-! ### `keyLt` is a strict total order -/
+
+theorem lexLtSym_irrefl (a : List Nat) : keyLt.lexLtSym a a = false := by
+  induction a with
+  | nil => rfl
+  | cons x xs ih => simp [keyLt.lexLtSym, ih]
+
+theorem lexLtSym_trans {a b c : List Nat} :
+    keyLt.lexLtSym a b = true → keyLt.lexLtSym b c = true → keyLt.lexLtSym a c = true := by
+  induction a generalizing b c with
+  | nil =>
+    cases b with
+    | nil => intro h; simp [keyLt.lexLtSym] at h
+    | cons y ys =>
+      cases c with
+      | nil => intro _ h; simp [keyLt.lexLtSym] at h
+      | cons z zs => intro _ _; rfl
+  | cons x xs ih =>
+    cases b with
+    | nil => intro h; simp [keyLt.lexLtSym] at h
+    | cons y ys =>
+      cases c with
+      | nil => intro _ h; simp [keyLt.lexLtSym] at h
+      | cons z zs =>
+        simp only [keyLt.lexLtSym]
+        intro h1 h2
+        by_cases hxy : x < y
+        · by_cases hyz : y < z
+          · have : x < z := by omega
+            simp [this]
+          · by_cases hzy : z < y
+            · simp [hyz, hzy] at h2
+            · have : y = z := by omega
+              subst this
+              simp [hxy]
+        · by_cases hyx : y < x
+          · simp [hxy, hyx] at h1
+          · have : x = y := by omega
+            subst this
+            simp only [hxy, if_false] at h1
+            by_cases hxz : x < z
+            · simp [hxz]
+            · by_cases hzx : z < x
+              · simp [hxz, hzx] at h2
+              · simp only [hxz, hzx, if_false] at h2 ⊢
+                exact ih h1 h2
+
+theorem lexLtSym_total (a b : List Nat) :
+    a ≠ b → keyLt.lexLtSym a b = true ∨ keyLt.lexLtSym b a = true := by
+  induction a generalizing b with
+  | nil =>
+    cases b with
+    | nil => intro h; exact absurd rfl h
+    | cons y ys => intro _; exact Or.inl rfl
+  | cons x xs ih =>
+    cases b with
+    | nil => intro _; exact Or.inr rfl
+    | cons y ys =>
+      intro hne
+      simp only [keyLt.lexLtSym]
+      by_cases hxy : x < y
+      · simp [hxy]
+      · by_cases hyx : y < x
+        · simp [hyx]
+        · have : x = y := by omega
+          subst this
+          simp only [hxy, if_false]
+          exact ih ys (fun h => hne (by rw [h]))
+
+theorem lexLtSym_asymm {a b : List Nat} :
+    keyLt.lexLtSym a b = true → keyLt.lexLtSym b a = false := by
+  intro h
+  cases h' : keyLt.lexLtSym b a
+  · rfl
+  · have := lexLtSym_trans h h'
+    rw [lexLtSym_irrefl] at this
+    exact absurd this (by decide)
+
+theorem keyLt_iff (a b : Key) :
+    keyLt a b = true ↔ (keyLt.lexLtSym a.1 b.1 = true ∨ (a.1 = b.1 ∧ a.2 < b.2)) := by
+  simp [keyLt]
+
+theorem keyLt_irrefl (a : Key) : keyLt a a = false := by
+  cases h : keyLt a a
+  · rfl
+  · rw [keyLt_iff] at h
+    rcases h with h | ⟨_, h⟩
+    · rw [lexLtSym_irrefl] at h; exact absurd h (by decide)
+    · omega
+
+theorem keyLt_trans {a b c : Key} : keyLt a b = true → keyLt b c = true → keyLt a c = true := by
+  rw [keyLt_iff, keyLt_iff, keyLt_iff]
+  rintro (h1 | ⟨e1, h1⟩) (h2 | ⟨e2, h2⟩)
+  · exact Or.inl (lexLtSym_trans h1 h2)
+  · rw [← e2]; exact Or.inl h1
+  · rw [e1]; exact Or.inl h2
+  · exact Or.inr ⟨e1.trans e2, by omega⟩
+
+theorem keyLt_total (a b : Key) : a ≠ b → keyLt a b = true ∨ keyLt b a = true := by
+  intro hne
+  rw [keyLt_iff, keyLt_iff]
+  by_cases hs : a.1 = b.1
+  · have hn : a.2 ≠ b.2 := fun h => hne (Prod.ext hs h)
+    by_cases hlt : a.2 < b.2
+    · exact Or.inl (Or.inr ⟨hs, hlt⟩)
+    · exact Or.inr (Or.inr ⟨hs.symm, by omega⟩)
+  · rcases lexLtSym_total a.1 b.1 hs with h | h
+    · exact Or.inl (Or.inl h)
+    · exact Or.inr (Or.inl h)
+
+theorem keyLt_asymm {a b : Key} : keyLt a b = true → keyLt b a = false := by
+  intro h
+  cases h' : keyLt b a
+  · rfl
+  · have := keyLt_trans h h'
+    rw [keyLt_irrefl] at this
+    exact absurd this (by decide)
+
+/-! ### `insertKey` / `sortEnts` -/
+
+/-- strictly sorted by key -/
+abbrev KeySorted (l : Ents) : Prop := List.Pairwise (fun a b => keyLt a.1 b.1 = true) l
+
+theorem insertKey_perm (e : Key × Int) (l : Ents) : (insertKey e l).Perm (e :: l) := by
+  induction l with
+  | nil => exact List.Perm.refl _
+  | cons y ys ih =>
+    simp only [insertKey]
+    split
+    · exact List.Perm.refl _
+    · exact (List.Perm.cons y ih).trans (List.Perm.swap e y ys)
+
+theorem mem_insertKey (e x : Key × Int) (l : Ents) : x ∈ insertKey e l ↔ x = e ∨ x ∈ l := by
+  rw [(insertKey_perm e l).mem_iff, List.mem_cons]
+
+theorem foldl_insertKey_perm (l acc : Ents) :
+    (l.foldl (fun acc e => insertKey e acc) acc).Perm (l ++ acc) := by
+  induction l generalizing acc with
+  | nil => exact List.Perm.refl _
+  | cons e rest ih =>
+    simp only [List.foldl_cons, List.cons_append]
+    refine (ih (insertKey e acc)).trans ?_
+    refine ((insertKey_perm e acc).append_left rest).trans ?_
+    exact List.perm_middle
+
+theorem sortEnts_perm (l : Ents) : (sortEnts l).Perm l := by
+  have := foldl_insertKey_perm l []
+  simpa [sortEnts] using this
+
+theorem insertKey_sorted (e : Key × Int) (l : Ents) (hs : KeySorted l)
+    (hne : ∀ y ∈ l, y.1 ≠ e.1) : KeySorted (insertKey e l) := by
+  induction l with
+  | nil => simp [insertKey, KeySorted]
+  | cons y ys ih =>
+    have hs' := List.pairwise_cons.1 hs
+    simp only [insertKey]
+    split
+    · rename_i hlt
+      refine List.pairwise_cons.2 ⟨?_, hs⟩
+      intro z hz
+      rcases List.mem_cons.1 hz with rfl | hz
+      · exact hlt
+      · exact keyLt_trans hlt (hs'.1 z hz)
+    · rename_i hnlt
+      have hye : keyLt y.1 e.1 = true := by
+        rcases keyLt_total y.1 e.1 (hne y List.mem_cons_self) with h | h
+        · exact h
+        · exact absurd h hnlt
+      refine List.pairwise_cons.2 ⟨?_, ih hs'.2 (fun z hz => hne z (List.mem_cons_of_mem _ hz))⟩
+      intro z hz
+      rcases (mem_insertKey e z ys).1 hz with rfl | hz
+      · exact hye
+      · exact hs'.1 z hz
+
+theorem foldl_insertKey_sorted (l acc : Ents) (hs : KeySorted acc)
+    (hnd : Ents.NoDupKeys (l ++ acc)) :
+    KeySorted (l.foldl (fun acc e => insertKey e acc) acc) := by
+  induction l generalizing acc with
+  | nil => exact hs
+  | cons e rest ih =>
+    simp only [List.foldl_cons]
+    unfold Ents.NoDupKeys Ents.keys at hnd
+    simp only [List.cons_append, List.map_cons, List.nodup_cons, List.map_append,
+      List.mem_append, List.mem_map, not_or, not_exists, not_and] at hnd
+    apply ih
+    · apply insertKey_sorted e acc hs
+      intro y hy
+      exact hnd.1.2 y hy
+    · unfold Ents.NoDupKeys Ents.keys
+      have hp : ((rest ++ insertKey e acc).map (·.1)).Perm (e.1 :: (rest ++ acc).map (·.1)) := by
+        have h1 : (rest ++ insertKey e acc).Perm (e :: (rest ++ acc)) :=
+          ((insertKey_perm e acc).append_left rest).trans List.perm_middle
+        simpa using h1.map (·.1)
+      rw [hp.nodup_iff, List.nodup_cons]
+      refine ⟨?_, by simpa using hnd.2⟩
+      simp only [List.map_append, List.mem_append, List.mem_map, not_or, not_exists, not_and]
+      exact hnd.1
+
+theorem sortEnts_sorted (l : Ents) (h : l.NoDupKeys) :
+    List.Pairwise (fun a b => keyLt a.1 b.1 = true) (sortEnts l) := by
+  unfold sortEnts
+  apply foldl_insertKey_sorted l [] List.Pairwise.nil
+  simpa using h
+
+/-! ### uniqueness of strictly sorted lists -/
+
+/-- a strictly sorted list is determined by its set of members -/
+theorem sorted_unique_of_mem (l1 l2 : Ents) (h1 : KeySorted l1) (h2 : KeySorted l2)
+    (hm : ∀ e, e ∈ l1 ↔ e ∈ l2) : l1 = l2 := by
+  induction l1 generalizing l2 with
+  | nil =>
+    cases l2 with
+    | nil => rfl
+    | cons y ys => exact absurd ((hm y).2 List.mem_cons_self) (by simp)
+  | cons x xs ih =>
+    cases l2 with
+    | nil => exact absurd ((hm x).1 List.mem_cons_self) (by simp)
+    | cons y ys =>
+      have p1 := List.pairwise_cons.1 h1
+      have p2 := List.pairwise_cons.1 h2
+      have hxy : x = y := by
+        by_cases hxy : x = y
+        · exact hxy
+        · have hx : x ∈ ys := by
+            rcases List.mem_cons.1 ((hm x).1 List.mem_cons_self) with h | h
+            · exact absurd h hxy
+            · exact h
+          have hy : y ∈ xs := by
+            rcases List.mem_cons.1 ((hm y).2 List.mem_cons_self) with h | h
+            · exact absurd h.symm hxy
+            · exact h
+          have a1 := p1.1 y hy
+          have a2 := p2.1 x hx
+          rw [keyLt_asymm a1] at a2
+          exact absurd a2 (by decide)
+      subst hxy
+      congr 1
+      apply ih ys p1.2 p2.2
+      intro e
+      constructor
+      · intro he
+        rcases List.mem_cons.1 ((hm e).1 (List.mem_cons_of_mem _ he)) with h | h
+        · have := p1.1 e he
+          rw [h, keyLt_irrefl] at this
+          exact absurd this (by decide)
+        · exact h
+      · intro he
+        rcases List.mem_cons.1 ((hm e).2 (List.mem_cons_of_mem _ he)) with h | h
+        · have := p2.1 e he
+          rw [h, keyLt_irrefl] at this
+          exact absurd this (by decide)
+        · exact h
+
+/-- two strictly sorted lists that are permutations of each other are equal -/
+theorem sorted_unique_of_perm (l1 l2 : Ents) (h1 : KeySorted l1) (h2 : KeySorted l2)
+    (hp : l1.Perm l2) : l1 = l2 :=
+  sorted_unique_of_mem l1 l2 h1 h2 (fun _ => hp.mem_iff)
+
+theorem NoDupKeys_of_perm {a b : Ents} (ha : a.NoDupKeys) (hp : a.Perm b) : b.NoDupKeys := by
+  unfold Ents.NoDupKeys Ents.keys at *
+  exact ((hp.map (·.1)).nodup_iff).1 ha
+
+/-- **canonical**: duplicate-free permutations of each other sort to the same list -/
+theorem sortEnts_canonical (a b : Ents) (ha : a.NoDupKeys) (hp : a.Perm b) :
+    sortEnts a = sortEnts b :=
+  sorted_unique_of_perm _ _ (sortEnts_sorted a ha) (sortEnts_sorted b (NoDupKeys_of_perm ha hp))
+    (((sortEnts_perm a).trans hp).trans (sortEnts_perm b).symm)
+
+/-! ### the finite-map view -/
+
+/-- membership in a duplicate-free entry list is exactly the finite-map view -/
+theorem mem_iff_abs (l : Ents) (h : l.NoDupKeys) (e : Key × Int) :
+    e ∈ l ↔ Ents.abs l e.1 = some e.2 := by
+  induction l with
+  | nil => simp [Ents.abs]
+  | cons x xs ih =>
+    unfold Ents.NoDupKeys Ents.keys at h
+    simp only [List.map_cons, List.nodup_cons, List.mem_map, not_exists, not_and] at h
+    rw [Ents.abs_cons, List.mem_cons]
+    by_cases hk : x.1 = e.1
+    · rw [if_pos hk]
+      constructor
+      · rintro (rfl | hm)
+        · rfl
+        · exact absurd hk.symm (h.1 e hm)
+      · intro hv
+        left
+        exact Prod.ext hk.symm (Option.some.inj hv).symm
+    · rw [if_neg hk, ← ih h.2]
+      constructor
+      · rintro (rfl | hm)
+        · exact absurd rfl hk
+        · exact hm
+      · exact Or.inr
+
+theorem mem_iff_of_same_map (a b : Ents) (ha : a.NoDupKeys) (hb : b.NoDupKeys)
+    (hsame : ∀ k, Ents.abs a k = Ents.abs b k) (e : Key × Int) : e ∈ a ↔ e ∈ b := by
+  rw [mem_iff_abs a ha, mem_iff_abs b hb, hsame]
+
+/-- **canonical, finite-map form**: duplicate-free lists denoting the same finite map sort to
+    the same list -/
+theorem sortEnts_of_same_map (a b : Ents) (ha : a.NoDupKeys) (hb : b.NoDupKeys)
+    (hsame : ∀ k, Ents.abs a k = Ents.abs b k) : sortEnts a = sortEnts b := by
+  apply sorted_unique_of_mem _ _ (sortEnts_sorted a ha) (sortEnts_sorted b hb)
+  intro e
+  rw [(sortEnts_perm a).mem_iff, (sortEnts_perm b).mem_iff]
+  exact mem_iff_of_same_map a b ha hb hsame e
+
+/-- duplicate-free lists denoting the same finite map are permutations of each other -/
+theorem perm_of_same_map (a b : Ents) (ha : a.NoDupKeys) (hb : b.NoDupKeys)
+    (hsame : ∀ k, Ents.abs a k = Ents.abs b k) : a.Perm b :=
+  (sortEnts_perm a).symm.trans
+    ((sortEnts_of_same_map a b ha hb hsame) ▸ (sortEnts_perm b))
+
+/-! ### the displayed text is canonical -/
+
+theorem get_of_same_map (a b : Ents) (hsame : ∀ k, Ents.abs a k = Ents.abs b k) (k : Key) :
+    a.get k = b.get k := by
+  rw [Ents.get_eq_abs, Ents.get_eq_abs, hsame]
+
+/-- the string index reads only through the finite-map view -/
+theorem strIndex_of_same_map (cc : CharClass) (T : Table) (c c' : Comp)
+    (hsame : ∀ k, Ents.abs c.ents k = Ents.abs c'.ents k) (s : Sym) :
+    c.strIndex cc T s = c'.strIndex cc T s := by
+  unfold Comp.strIndex Ents.getStr
+  split
+  · exact get_of_same_map _ _ hsame _
+  · rfl
+  · split
+    · exact get_of_same_map _ _ hsame _
+    · rfl
+
+/-- **display is canonical**: the text of `to_formula` depends only on the finite map a
+    composition denotes — not on the representation `form`, the cache or the insertion order -/
+theorem toFormula_canonical (cc : CharClass) (T : Table) (c c' : Comp)
+    (h : c.ents.NoDupKeys) (h' : c'.ents.NoDupKeys)
+    (hsame : ∀ k, Ents.abs c.ents k = Ents.abs c'.ents k) :
+    toFormula cc T c = toFormula cc T c' := by
+  unfold toFormula
+  rw [strIndex_of_same_map cc T c c' hsame [67], strIndex_of_same_map cc T c c' hsame [72],
+    sortEnts_of_same_map c.ents c'.ents h h' hsame]
+
+/-! ### non-vacuity -/
+
+-- O2 H5 C2 13C1 in two insertion orders: same sorted list
+example :
+    sortEnts [(([79], 0), 2), (([72], 0), 5), (([67], 0), 2), (([67], 13), 1)]
+      = sortEnts [(([67], 13), 1), (([67], 0), 2), (([79], 0), 2), (([72], 0), 5)] := by decide
+
+example :
+    sortEnts [(([79], 0), 2), (([72], 0), 5), (([67], 0), 2), (([67], 13), 1)]
+      = [(([67], 0), 2), (([67], 13), 1), (([72], 0), 5), (([79], 0), 2)] := by decide
+
+-- "Na" < "O", and prefix order "N" < "Na"
+example : sortEnts [(([79], 0), 1), (([78, 97], 0), 1), (([78], 0), 3)]
+    = [(([78], 0), 3), (([78, 97], 0), 1), (([79], 0), 1)] := by decide
+
+example : keyLt ([67], 0) ([67], 13) = true := by decide
+example : keyLt ([67], 13) ([72], 0) = true := by decide
+
+/-- ASCII character classes, for the concrete examples -/
+def asciiCC : CharClass := ⟨isAsciiAlpha, isAsciiDigit, isAsciiUpper⟩
+
+-- O2, H5, C2, 13C1 displayed: "C2H5C[13]1O2"  (both stores, either insertion order)
+example :
+    toFormula asciiCC [] ⟨.vec, [(([79], 0), 2), (([72], 0), 5), (([67], 0), 2), (([67], 13), 1)], none⟩
+      = [67, 50, 72, 53, 67, 91, 49, 51, 93, 49, 79, 50] := by decide
+
+example :
+    toFormula asciiCC [] ⟨.emap, [(([67], 13), 1), (([67], 0), 2), (([79], 0), 2), (([72], 0), 5)], some 7⟩
+      = [67, 50, 72, 53, 67, 91, 49, 51, 93, 49, 79, 50] := by decide
+
+-- negative count and no carbon: "H-1Na1"
+example : toFormula asciiCC [] ⟨.map, [(([78, 97], 0), 1), (([72], 0), -1)], none⟩
+    = [72, 45, 49, 78, 97, 49] := by decide
+
+-- the hypotheses of `toFormula_canonical` are satisfiable by genuinely different representations
+example : toFormula asciiCC [] ⟨.vec, [(([79], 0), 2), (([72], 0), 5)], none⟩
+    = toFormula asciiCC [] ⟨.emap, [(([72], 0), 5), (([79], 0), 2)], some 3⟩ := by
+  apply toFormula_canonical
+  · show List.Nodup _; decide
+  · show List.Nodup _; decide
+  · intro k
+    simp only [Ents.abs_cons, Ents.abs_nil]
+    by_cases h1 : k = ([79], 0)
+    · subst h1; decide
+    · by_cases h2 : k = ([72], 0)
+      · subst h2; decide
+      · have a : ¬ ([79], 0) = k := fun h => h1 h.symm
+        have b : ¬ ([72], 0) = k := fun h => h2 h.symm
+        simp [a, b]
+
 end Chem
